@@ -1,14 +1,29 @@
 //! C16: overload resolution is order-independent and prefers exact matches.
 //!
-//! request : C16.resolve \t cand;cand;...  \t arg,arg,...
-//!             cand  = <id>:<non_default>:<param>,<param>,...      (declaration order = order in the request)
+//! request : C16.resolve \t cand;cand;...  \t arg,arg,... [\t opt,opt,...]
+//!             cand  = <id>:<non_default>:<param>,<param>,...[:t<kinds>]   (declaration order = order in the request;
+//!                     kinds = one letter per template parameter, T = `typename Tk`, V = `uint Tk`; ids >= 1000 are the
+//!                     overloads of an intrinsic, read from the real function registry, not declared by the program)
 //!             param = <in|out|inout>/<mods>/<layer>
 //!             arg   = <L|R>/<mods>/<layer>
 //!             mods  = `-` or letters c(onst) v(olatile) r(ow_major) k(column_major) u(norm) n(snorm)
 //!             layer = s.<Scalar> | v.<Scalar>.<n> | m.<Scalar>.<x>.<y> | e.<id> | o.<id>
+//!                     (o.<id>: id < 100 struct S<id>, 100 + 10*scalar + len an array, 200.. an intrinsic object type)
+//!                     in parameters of templates also t.<k> (`Tk`) | vt.<k>.<n> (`vector<Tk, n>`) | mt.<k>.<x>.<y>
+//!             opt   = D (every candidate declared, then defined in reverse order)
+//!                   | P=<path> how the candidates are declared and the call is written:
+//!                       M methods of `struct S`, call `s.f(..)`;  I / J the call is inside another method of S that is
+//!                       declared before / after the candidates;  U methods of `template<typename W> struct S`, `S<int> s`;
+//!                       N inside `namespace N`, call `N::f(..)`;  Q the namespace is opened twice;
+//!                       O call from a function inside `namespace N`, the root scope has a hidden exactly matching `f`;
+//!                       K the same one namespace level deeper;  R candidates at the root, call `::f(..)` inside a
+//!                       namespace with its own exactly matching `f`;  A.<name> user overloads of the intrinsic <name>;
+//!                       B.<k>.<name> the intrinsic methods <name> of object type number k
+//!                   | X=<targ>+<targ>.. explicit template arguments of the call (targ = <mods>/<layer> or `#` = a constant)
 //!           run as a generated RSSL program: every candidate returns its own struct `R<id>`, the call is
-//!           `assert_type<R..>(f(args))`; the verdict is read off acceptance / the diagnostic.
-//! observe : sel <id> | amb <id,id,..> (ascending) | none | panic
+//!           `assert_type<R..>(f(args))`; the verdict is read off the type checker's result: the `Call` node of the
+//!           accepted program / `AssertTypeFailed` / `FunctionArgumentTypeMismatch(ids, .., ambiguous)`.
+//! observe : sel <id>[<targ+targ..>] | amb <id,id,..> (ascending) | none | panic
 //! oracle  : (independent of the Lean model) the verdict is the same under every permutation of the declaration order;
 //!           a unique exactly-matching viable candidate is selected (several: all reported ambiguous);
 //!           the selected candidate is not dominated by another viable one, ranks taken from the real
@@ -32,6 +47,14 @@ pub enum Layer {
     Matrix(u8, u32, u32),
     Enum(u32),
     Other(u32),
+    /// `Tk` (only in parameters of function templates)
+    TVar(u8),
+    /// `vector<Tk, n>`
+    TVec(u8, u32),
+    /// `matrix<Tk, x, y>`
+    TMat(u8, u32, u32),
+    /// `Tk p[len]`
+    TArr(u8, u32),
 }
 
 const SCALARS: &[(ScalarType, &str, &str)] = &[
@@ -84,6 +107,131 @@ pub struct Cand {
     id: u32,
     non_default: usize,
     params: Vec<Param>,
+    /// one entry per template parameter: true = `typename Tk`, false = `uint Tk`
+    tkinds: Vec<bool>,
+}
+
+/// how the candidates are declared and how the call is written
+#[derive(Clone, PartialEq, Eq, Hash, PartialOrd, Ord, Debug)]
+pub enum Path {
+    Free,
+    Method,
+    MethodIntFirst,
+    MethodIntLast,
+    TStruct,
+    Ns,
+    NsSplit,
+    NsInner,
+    NsNested,
+    /// candidates at the root, the call `::f(..)` inside a namespace that has its own exactly matching `f`
+    NsAbsolute,
+    Intrinsic(String),
+    Object(u32, String),
+}
+
+#[derive(Clone, PartialEq, Eq, Hash, PartialOrd, Ord, Debug)]
+pub struct Opts {
+    with_defs: bool,
+    path: Path,
+    /// explicit template arguments; None = a constant
+    targs: Vec<Option<Ty>>,
+    /// how the argument expressions are written: 0 locals / calls, 1 members of a local struct / casts, 2 globals
+    form: u8,
+}
+
+impl Opts {
+    fn plain() -> Self {
+        Opts { with_defs: false, path: Path::Free, targs: Vec::new(), form: 0 }
+    }
+}
+
+fn show_targ(t: &Option<Ty>) -> String {
+    match t {
+        None => "#".into(),
+        Some(t) => show_ty(*t),
+    }
+}
+
+fn show_opts(o: &Opts) -> String {
+    let mut v: Vec<String> = Vec::new();
+    if o.with_defs {
+        v.push("D".into());
+    }
+    match &o.path {
+        Path::Free => {}
+        Path::Method => v.push("P=M".into()),
+        Path::MethodIntFirst => v.push("P=I".into()),
+        Path::MethodIntLast => v.push("P=J".into()),
+        Path::TStruct => v.push("P=U".into()),
+        Path::Ns => v.push("P=N".into()),
+        Path::NsSplit => v.push("P=Q".into()),
+        Path::NsInner => v.push("P=O".into()),
+        Path::NsNested => v.push("P=K".into()),
+        Path::NsAbsolute => v.push("P=R".into()),
+        Path::Intrinsic(n) => v.push(format!("P=A.{}", n)),
+        Path::Object(k, n) => v.push(format!("P=B.{}.{}", k, n)),
+    }
+    if !o.targs.is_empty() {
+        v.push(format!("X={}", o.targs.iter().map(show_targ).collect::<Vec<_>>().join("+")));
+    }
+    if o.form != 0 {
+        v.push(format!("E={}", o.form));
+    }
+    v.join(",")
+}
+
+fn parse_opts(s: &str) -> Option<Opts> {
+    let mut o = Opts::plain();
+    if s.is_empty() {
+        return Some(o);
+    }
+    for tok in s.split(',') {
+        if tok == "D" {
+            o.with_defs = true;
+        } else if let Some(p) = tok.strip_prefix("P=") {
+            o.path = match p {
+                "M" => Path::Method,
+                "I" => Path::MethodIntFirst,
+                "J" => Path::MethodIntLast,
+                "U" => Path::TStruct,
+                "N" => Path::Ns,
+                "Q" => Path::NsSplit,
+                "O" => Path::NsInner,
+                "K" => Path::NsNested,
+                "R" => Path::NsAbsolute,
+                _ => {
+                    if let Some(n) = p.strip_prefix("A.") {
+                        Path::Intrinsic(n.to_string())
+                    } else if let Some(r) = p.strip_prefix("B.") {
+                        let (k, n) = r.split_once('.')?;
+                        Path::Object(k.parse().ok()?, n.to_string())
+                    } else {
+                        return None;
+                    }
+                }
+            };
+        } else if let Some(e) = tok.strip_prefix("E=") {
+            o.form = e.parse().ok()?;
+            if o.form > 2 {
+                return None;
+            }
+        } else if let Some(x) = tok.strip_prefix("X=") {
+            for t in x.split('+') {
+                if t == "#" {
+                    o.targs.push(None);
+                } else {
+                    let p: Vec<&str> = t.split('/').collect();
+                    if p.len() != 2 {
+                        return None;
+                    }
+                    o.targs.push(Some(Ty { mods: parse_mods(p[0])?, layer: parse_layer(p[1])? }));
+                }
+            }
+        } else {
+            return None;
+        }
+    }
+    Some(o)
 }
 
 fn show_mods(m: Mods) -> String {
@@ -118,6 +266,10 @@ fn show_layer(l: Layer) -> String {
         Layer::Matrix(s, x, y) => format!("m.{}.{}.{}", SCALARS[s as usize].1, x, y),
         Layer::Enum(i) => format!("e.{}", i),
         Layer::Other(i) => format!("o.{}", i),
+        Layer::TVar(k) => format!("t.{}", k),
+        Layer::TVec(k, n) => format!("vt.{}.{}", k, n),
+        Layer::TMat(k, x, y) => format!("mt.{}.{}.{}", k, x, y),
+        Layer::TArr(k, n) => format!("at.{}.{}", k, n),
     }
 }
 
@@ -133,6 +285,10 @@ fn parse_layer(s: &str) -> Option<Layer> {
         ["m", s, x, y] => Some(Layer::Matrix(parse_scalar(s)?, x.parse().ok()?, y.parse().ok()?)),
         ["e", i] => Some(Layer::Enum(i.parse().ok()?)),
         ["o", i] => Some(Layer::Other(i.parse().ok()?)),
+        ["t", k] => Some(Layer::TVar(k.parse().ok()?)),
+        ["vt", k, n] => Some(Layer::TVec(k.parse().ok()?, n.parse().ok()?)),
+        ["mt", k, x, y] => Some(Layer::TMat(k.parse().ok()?, x.parse().ok()?, y.parse().ok()?)),
+        ["at", k, n] => Some(Layer::TArr(k.parse().ok()?, n.parse().ok()?)),
         _ => None,
     }
 }
@@ -183,12 +339,19 @@ fn parse_param(s: &str) -> Option<Param> {
 
 fn show_cand(c: &Cand) -> String {
     let ps: Vec<String> = c.params.iter().map(|p| show_param(*p)).collect();
-    format!("{}:{}:{}", c.id, c.non_default, ps.join(","))
+    let mut s = format!("{}:{}:{}", c.id, c.non_default, ps.join(","));
+    if !c.tkinds.is_empty() {
+        s.push_str(":t");
+        for k in &c.tkinds {
+            s.push(if *k { 'T' } else { 'V' });
+        }
+    }
+    s
 }
 
 fn parse_cand(s: &str) -> Option<Cand> {
-    let p: Vec<&str> = s.splitn(3, ':').collect();
-    if p.len() != 3 {
+    let p: Vec<&str> = s.split(':').collect();
+    if p.len() != 3 && p.len() != 4 {
         return None;
     }
     let params: Option<Vec<Param>> = if p[2].is_empty() {
@@ -196,7 +359,21 @@ fn parse_cand(s: &str) -> Option<Cand> {
     } else {
         p[2].split(',').map(parse_param).collect()
     };
-    Some(Cand { id: p[0].parse().ok()?, non_default: p[1].parse().ok()?, params: params? })
+    let mut tkinds = Vec::new();
+    if p.len() == 4 {
+        let k = p[3].strip_prefix('t')?;
+        if k.is_empty() {
+            return None;
+        }
+        for c in k.chars() {
+            tkinds.push(match c {
+                'T' => true,
+                'V' => false,
+                _ => return None,
+            });
+        }
+    }
+    Some(Cand { id: p[0].parse().ok()?, non_default: p[1].parse().ok()?, params: params?, tkinds })
 }
 
 fn show_cands(cs: &[Cand]) -> String {
@@ -232,7 +409,15 @@ impl Real {
                 reg.register_type(ir::TypeLayer::Matrix(i, x, y))
             }
             Layer::Enum(i) => reg.register_type(ir::TypeLayer::Enum(ir::EnumId(i))),
+            Layer::Other(i) if (100..200).contains(&i) => {
+                let e = sid(((i - 100) / 10) as u8);
+                reg.register_type(ir::TypeLayer::Array(e, Some(((i - 100) % 10) as u64)))
+            }
+            Layer::Other(200) => reg.register_type(ir::TypeLayer::Object(ir::ObjectType::SamplerState)),
+            Layer::Other(201) => reg.register_type(ir::TypeLayer::Object(ir::ObjectType::SamplerComparisonState)),
             Layer::Other(i) => reg.register_type(ir::TypeLayer::Struct(ir::StructId(i))),
+            // template parameters never reach the conversion routines (they are substituted first)
+            Layer::TVar(_) | Layer::TVec(..) | Layer::TMat(..) | Layer::TArr(..) => reg.register_type(ir::TypeLayer::Void),
         };
         if t.mods.0 == 0 {
             base
@@ -256,7 +441,21 @@ impl Real {
 
     /// back from a real type id to the protocol's description
     fn describe(&self, id: ir::TypeId) -> Option<Ty> {
-        let reg = &self.module.type_registry;
+        describe_in(&self.module, id, false)
+    }
+}
+
+/// describe a type of `module`; `by_name`: structs and enums are the program's `S<n>` / `E<n>` (otherwise the
+/// registry index is the protocol's number)
+fn describe_in(module: &ir::Module, id: ir::TypeId, by_name: bool) -> Option<Ty> {
+    let struct_no = |s: ir::StructId| -> Option<u32> {
+        if by_name { module.struct_registry[s.0 as usize].name.node.strip_prefix('S')?.parse().ok() } else { Some(s.0) }
+    };
+    let enum_no = |e: ir::EnumId| -> Option<u32> {
+        if by_name { module.enum_registry.get_enum_definition(e).name.node.strip_prefix('E')?.parse().ok() } else { Some(e.0) }
+    };
+    {
+        let reg = &module.type_registry;
         let (base, m) = reg.extract_modifier(id);
         let mut bits = 0u8;
         for (i, b) in [m.is_const, m.volatile, m.row_major, m.column_major, m.unorm, m.snorm].iter().enumerate() {
@@ -273,12 +472,19 @@ impl Real {
             ir::TypeLayer::Scalar(s) => Layer::Scalar(sc(s)?),
             ir::TypeLayer::Vector(i, n) => Layer::Vector(inner(i)?, n),
             ir::TypeLayer::Matrix(i, x, y) => Layer::Matrix(inner(i)?, x, y),
-            ir::TypeLayer::Enum(e) => Layer::Enum(e.0),
-            ir::TypeLayer::Struct(s) => Layer::Other(s.0),
+            ir::TypeLayer::Enum(e) => Layer::Enum(enum_no(e)?),
+            ir::TypeLayer::Struct(s) => Layer::Other(struct_no(s)?),
+            ir::TypeLayer::Array(e, Some(len)) if (1..10).contains(&len) => Layer::Other(100 + 10 * inner(e)? as u32 + len as u32),
+            ir::TypeLayer::TemplateParam(id) => Layer::TVar(reg.get_template_type(id).positional_index as u8),
+            ir::TypeLayer::Object(ir::ObjectType::SamplerState) => Layer::Other(200),
+            ir::TypeLayer::Object(ir::ObjectType::SamplerComparisonState) => Layer::Other(201),
             _ => return None,
         };
         Some(Ty { mods: Mods(bits), layer })
     }
+}
+
+impl Real {
 
     /// `find` + `get_rank`: Ok(None) = no conversion, Ok(Some((num, vec))) = Debug names, Err = panic
     fn rank(&mut self, src: ETy, dst: ETy) -> Result<Option<(String, String)>, String> {
@@ -334,22 +540,76 @@ impl Real {
 
 // ------------------------------------------------------------------------------------------- programs
 
-fn spell(t: Ty) -> Option<String> {
+/// intrinsic object types whose methods the `B` path calls: (declaration of the global `g_obj`, constructor)
+const OBJECTS: &[&str] = &[
+    "Texture2D<float4>",
+    "Texture2DArray<float4>",
+    "Texture3D<float4>",
+    "TextureCube<float4>",
+    "Buffer<float4>",
+    "RWTexture2D<float4>",
+    "StructuredBuffer<float4>",
+    "RWBuffer<float4>",
+    "RWByteAddressBuffer",
+    "ByteAddressBuffer",
+];
+
+fn object_type(k: u32, module: &mut ir::Module) -> Option<ir::ObjectType> {
+    let f = module.type_registry.register_type(ir::TypeLayer::Scalar(ScalarType::Float32));
+    let f4 = module.type_registry.register_type(ir::TypeLayer::Vector(f, 4));
+    Some(match k {
+        0 => ir::ObjectType::Texture2D(f4),
+        1 => ir::ObjectType::Texture2DArray(f4),
+        2 => ir::ObjectType::Texture3D(f4),
+        3 => ir::ObjectType::TextureCube(f4),
+        4 => ir::ObjectType::Buffer(f4),
+        5 => ir::ObjectType::RWTexture2D(f4),
+        6 => ir::ObjectType::StructuredBuffer(f4),
+        7 => ir::ObjectType::RWBuffer(f4),
+        8 => ir::ObjectType::RWByteAddressBuffer,
+        9 => ir::ObjectType::ByteAddressBuffer,
+        _ => return None,
+    })
+}
+
+/// type name and declarator suffix (arrays): `float` + `[2]`
+fn spell2(t: Ty) -> Option<(String, String)> {
     let sc = |s: u8| {
         let n = SCALARS[s as usize].2;
         if n.is_empty() { None } else { Some(n) }
     };
+    let mut suffix = String::new();
     let base = match t.layer {
         Layer::Scalar(s) => sc(s)?.to_string(),
         Layer::Vector(s, n) if (1..=4).contains(&n) => format!("{}{}", sc(s)?, n),
         Layer::Matrix(s, x, y) if (1..=4).contains(&x) && (1..=4).contains(&y) => format!("{}{}x{}", sc(s)?, x, y),
         Layer::Enum(i) => format!("E{}", i),
-        Layer::Other(i) => format!("S{}", i),
+        Layer::Other(i) if i < 100 => format!("S{}", i),
+        Layer::Other(i) if i < 200 => {
+            suffix = format!("[{}]", (i - 100) % 10);
+            sc(((i - 100) / 10) as u8)?.to_string()
+        }
+        Layer::Other(200) => "SamplerState".to_string(),
+        Layer::Other(201) => "SamplerComparisonState".to_string(),
+        Layer::TVar(k) => format!("T{}", k),
+        Layer::TVec(k, n) => format!("vector<T{}, {}>", k, n),
+        Layer::TMat(k, x, y) => format!("matrix<T{}, {}, {}>", k, x, y),
+        Layer::TArr(k, n) => {
+            suffix = format!("[{}]", n);
+            format!("T{}", k)
+        }
         _ => return None,
     };
     match t.mods.0 {
-        0 => Some(base),
-        1 => Some(format!("const {}", base)),
+        0 => Some((base, suffix)),
+        1 => Some((format!("const {}", base), suffix)),
+        _ => None,
+    }
+}
+
+fn spell(t: Ty) -> Option<String> {
+    match spell2(t)? {
+        (b, s) if s.is_empty() => Some(b),
         _ => None,
     }
 }
@@ -358,13 +618,26 @@ fn is_numeric(l: Layer) -> bool {
     matches!(l, Layer::Scalar(_) | Layer::Vector(..) | Layer::Matrix(..))
 }
 
-/// RSSL program for one declaration order; None = not expressible (SKIP)
-fn program(cands: &[Cand], args: &[ETy], with_defs: bool) -> Option<String> {
+fn is_template_layer(l: Layer) -> bool {
+    matches!(l, Layer::TVar(_) | Layer::TVec(..) | Layer::TMat(..) | Layer::TArr(..))
+}
+
+fn is_object_layer(l: Layer) -> bool {
+    matches!(l, Layer::Other(i) if i >= 200)
+}
+
+/// the candidates the program has to declare (ids >= 1000 belong to the compiler)
+fn is_user(c: &Cand) -> bool {
+    c.id < 1000
+}
+
+/// RSSL program for one declaration order; None = not expressible (SKIP).  `expect` is the struct named in assert_type.
+fn program(cands: &[Cand], args: &[ETy], opts: &Opts, expect: Option<u32>) -> Option<String> {
     let mut s = String::new();
     let mut others: Vec<u32> = Vec::new();
     let mut enums: Vec<u32> = Vec::new();
     let mut note = |l: Layer| match l {
-        Layer::Other(i) if !others.contains(&i) => others.push(i),
+        Layer::Other(i) if i < 100 && !others.contains(&i) => others.push(i),
         Layer::Enum(i) if !enums.contains(&i) => enums.push(i),
         _ => {}
     };
@@ -375,6 +648,9 @@ fn program(cands: &[Cand], args: &[ETy], with_defs: bool) -> Option<String> {
     }
     for a in args {
         note(a.ty.layer);
+    }
+    for t in opts.targs.iter().flatten() {
+        note(t.layer);
     }
     others.sort();
     enums.sort();
@@ -391,24 +667,50 @@ fn program(cands: &[Cand], args: &[ETy], with_defs: bool) -> Option<String> {
             return None;
         }
     }
-    for id in &ids {
+    let hidden = matches!(opts.path, Path::NsInner | Path::NsNested | Path::NsAbsolute);
+    for id in ids.iter().filter(|i| **i < 1000) {
         s.push_str(&format!("struct R{} {{ int q; }};\n", id));
+    }
+    if hidden {
+        s.push_str("struct R99 { int q; };\n");
     }
     // argument expressions
     let mut locals = String::new();
+    let mut members = String::new();
     let mut exprs = Vec::new();
     for (i, a) in args.iter().enumerate() {
         match (a.lvalue, a.ty.mods.0, a.ty.layer) {
             (false, 0, Layer::Scalar(S_INTLIT)) => exprs.push("0".to_string()),
             (false, 0, Layer::Scalar(S_FLOATLIT)) => exprs.push("0.0".to_string()),
+            (true, 0, l) if is_object_layer(l) => {
+                let t = spell(a.ty)?;
+                s.push_str(&format!("{} g_a{};\n", t, i));
+                exprs.push(format!("g_a{}", i));
+            }
+            (false, 0, l) if opts.form == 1 && is_numeric(l) => {
+                // a cast of a local of that type
+                let t = spell(a.ty)?;
+                locals.push_str(&format!("    {} c{};\n", t, i));
+                exprs.push(format!("({})c{}", t, i));
+            }
             (false, 0, _) => {
                 let t = spell(a.ty)?;
                 s.push_str(&format!("{} rv{}();\n", t, i));
                 exprs.push(format!("rv{}()", i));
             }
+            (true, 0, _) if opts.form == 1 => {
+                let (t, suf) = spell2(a.ty)?;
+                members.push_str(&format!(" {} m{}{};", t, i, suf));
+                exprs.push(format!("w.m{}", i));
+            }
+            (true, 0, _) if opts.form == 2 => {
+                let (t, suf) = spell2(a.ty)?;
+                s.push_str(&format!("static {} g{}{};\n", t, i, suf));
+                exprs.push(format!("g{}", i));
+            }
             (true, 0, _) => {
-                let t = spell(a.ty)?;
-                locals.push_str(&format!("    {} a{};\n", t, i));
+                let (t, suf) = spell2(a.ty)?;
+                locals.push_str(&format!("    {} a{}{};\n", t, i, suf));
                 exprs.push(format!("a{}", i));
             }
             (true, 1, l) if is_numeric(l) => {
@@ -419,8 +721,25 @@ fn program(cands: &[Cand], args: &[ETy], with_defs: bool) -> Option<String> {
             _ => return None,
         }
     }
+    if !members.is_empty() {
+        s.push_str(&format!("struct W {{{} }};\n", members));
+        locals.push_str("    W w;\n");
+    }
+    let fname: String = match &opts.path {
+        Path::Intrinsic(n) | Path::Object(_, n) => n.clone(),
+        _ => "f".to_string(),
+    };
+    let in_struct = matches!(opts.path, Path::Method | Path::MethodIntFirst | Path::MethodIntLast | Path::TStruct);
+    if let Path::Object(k, _) = &opts.path {
+        if cands.iter().any(is_user) {
+            return None;
+        }
+        s.push_str(&format!("{} g_obj;\n", OBJECTS.get(*k as usize)?));
+    }
+    // candidate declarations
+    let mut decls: Vec<String> = Vec::new();
     let mut defs: Vec<String> = Vec::new();
-    for c in cands {
+    for c in cands.iter().filter(|c| is_user(c)) {
         if c.non_default > c.params.len() {
             return None;
         }
@@ -429,13 +748,16 @@ fn program(cands: &[Cand], args: &[ETy], with_defs: bool) -> Option<String> {
             if p.ty.mods.0 != 0 {
                 return None;
             }
-            let t = spell(p.ty)?;
+            if is_template_layer(p.ty.layer) && c.tkinds.is_empty() {
+                return None;
+            }
+            let (t, suf) = spell2(p.ty)?;
             let io = match p.io {
                 Io::In => "",
                 Io::Out => "out ",
                 Io::InOut => "inout ",
             };
-            let mut d = format!("{}{} p{}", io, t, i);
+            let mut d = format!("{}{} p{}{}", io, t, i, suf);
             if i >= c.non_default {
                 if p.io != Io::In || !is_numeric(p.ty.layer) {
                     return None;
@@ -444,25 +766,138 @@ fn program(cands: &[Cand], args: &[ETy], with_defs: bool) -> Option<String> {
             }
             ps.push(d);
         }
-        s.push_str(&format!("R{} f({});\n", c.id, ps.join(", ")));
-        defs.push(format!("R{} f({}) {{ R{} r; return r; }}\n", c.id, ps.join(", "), c.id));
+        let body = format!("{{ R{} r; return r; }}", c.id);
+        if c.tkinds.is_empty() && !in_struct {
+            decls.push(format!("R{} {}({});\n", c.id, fname, ps.join(", ")));
+            defs.push(format!("R{} {}({}) {}\n", c.id, fname, ps.join(", "), body));
+        } else {
+            // a template needs its body (it is the template source); methods are written with bodies
+            let mut head = String::new();
+            if !c.tkinds.is_empty() {
+                let tp: Vec<String> = c
+                    .tkinds
+                    .iter()
+                    .enumerate()
+                    .map(|(k, ty)| if *ty { format!("typename T{}", k) } else { format!("uint T{}", k) })
+                    .collect();
+                head = format!("template<{}> ", tp.join(", "));
+            }
+            decls.push(format!("{}R{} {}({}) {}\n", head, c.id, fname, ps.join(", "), body));
+        }
     }
-    if with_defs {
+    if opts.with_defs {
+        if in_struct || cands.iter().any(|c| !c.tkinds.is_empty()) {
+            return None;
+        }
         // every candidate is declared above and *defined* here in the reverse order: a definition must attach to
         // its declaration (scopes.rs check_existing_functions_in_scope) and neither duplicate nor reorder the set
         for d in defs.iter().rev() {
-            s.push_str(d);
+            decls.push(d.clone());
         }
     }
-    s.push_str("void main() {\n");
-    s.push_str(&locals);
-    s.push_str(&format!("    assert_type<R{}>(f({}));\n}}\n", ids[0], exprs.join(", ")));
+    // the call
+    let mut callee = fname.clone();
+    if !opts.targs.is_empty() {
+        let mut ts = Vec::new();
+        for t in &opts.targs {
+            ts.push(match t {
+                None => "2".to_string(),
+                Some(t) => spell(*t)?,
+            });
+        }
+        callee = format!("{}<{}>", callee, ts.join(", "));
+    }
+    let qualified = match opts.path {
+        Path::Method | Path::TStruct => format!("s.{}", callee),
+        Path::Ns | Path::NsSplit => format!("N::{}", callee),
+        Path::Object(..) => format!("g_obj.{}", callee),
+        Path::NsAbsolute => format!("::{}", callee),
+        _ => callee,
+    };
+    let call = format!("{}({})", qualified, exprs.join(", "));
+    let stmt = match expect {
+        Some(r) => format!("    assert_type<R{}>({});\n", r, call),
+        None => format!("    {};\n", call),
+    };
+    // the hidden exactly matching overload of the O / K paths
+    let mut decoy = String::new();
+    if hidden {
+        let mut ps = Vec::new();
+        for (i, a) in args.iter().enumerate() {
+            let l = match a.ty.layer {
+                Layer::Scalar(S_INTLIT) => Layer::Scalar(2),
+                Layer::Scalar(S_FLOATLIT) => Layer::Scalar(6),
+                l => l,
+            };
+            let (t, suf) = spell2(Ty { mods: Mods(0), layer: l })?;
+            ps.push(format!("{} p{}{}", t, i, suf));
+        }
+        decoy = format!("R99 f({});\n", ps.join(", "));
+    }
+    let caller = |name: &str, pre: &str| format!("void {}() {{\n{}{}{}}}\n", name, pre, locals, stmt);
+    match opts.path {
+        Path::Free | Path::Intrinsic(_) | Path::Object(..) => {
+            for d in &decls {
+                s.push_str(d);
+            }
+            s.push_str(&caller("main", ""));
+        }
+        Path::Method => {
+            s.push_str(&format!("struct S {{\n{}}};\n", decls.concat()));
+            s.push_str(&caller("main", "    S s;\n"));
+        }
+        Path::TStruct => {
+            s.push_str(&format!("template<typename W> struct S {{\n{}}};\n", decls.concat()));
+            s.push_str(&caller("main", "    S<int> s;\n"));
+        }
+        Path::MethodIntFirst => {
+            s.push_str(&format!("struct S {{\n{}{}}};\nvoid main() {{ S s; s.g(); }}\n", caller("g", ""), decls.concat()));
+        }
+        Path::MethodIntLast => {
+            s.push_str(&format!("struct S {{\n{}{}}};\nvoid main() {{ S s; s.g(); }}\n", decls.concat(), caller("g", "")));
+        }
+        Path::Ns => {
+            s.push_str(&format!("namespace N {{\n{}}}\n", decls.concat()));
+            s.push_str(&caller("main", ""));
+        }
+        Path::NsSplit => {
+            let h = decls.len().div_ceil(2);
+            s.push_str(&format!("namespace N {{\n{}}}\n", decls[..h].concat()));
+            s.push_str("struct Between { int q; };\n");
+            s.push_str(&format!("namespace N {{\n{}}}\n", decls[h..].concat()));
+            s.push_str(&caller("main", ""));
+        }
+        Path::NsInner => {
+            s.push_str(&decoy);
+            s.push_str(&format!("namespace N {{\n{}{}}}\nvoid main() {{ N::g(); }}\n", decls.concat(), caller("g", "")));
+        }
+        Path::NsAbsolute => {
+            for d in &decls {
+                s.push_str(d);
+            }
+            s.push_str(&format!("namespace N {{\n{}{}}}\nvoid main() {{ N::g(); }}\n", decoy, caller("g", "")));
+        }
+        Path::NsNested => {
+            s.push_str(&format!(
+                "namespace N {{\n{}namespace K {{\n{}{}}}\n}}\nvoid main() {{ N::K::g(); }}\n",
+                decoy,
+                decls.concat(),
+                caller("g", "")
+            ));
+        }
+    }
     Some(s)
+}
+
+/// an explicit or deduced template argument as observed
+fn show_targs(t: &[String]) -> String {
+    t.join("+")
 }
 
 #[derive(Clone, PartialEq, Eq, Debug)]
 enum Verdict {
-    Sel(u32),
+    /// selected candidate and, for a template, the template arguments of the instantiation that is called
+    Sel(u32, Option<Vec<String>>),
     Amb(Vec<u32>),
     Unmatched,
     Panic(String),
@@ -471,7 +906,8 @@ enum Verdict {
 
 fn show_verdict(v: &Verdict) -> String {
     match v {
-        Verdict::Sel(i) => format!("sel {}", i),
+        Verdict::Sel(i, None) => format!("sel {}", i),
+        Verdict::Sel(i, Some(t)) => format!("sel {}<{}>", i, show_targs(t)),
         Verdict::Amb(ids) => format!("amb {}", ids.iter().map(|i| i.to_string()).collect::<Vec<_>>().join(",")),
         Verdict::Unmatched => "none".into(),
         Verdict::Panic(_) => "panic".into(),
@@ -479,94 +915,438 @@ fn show_verdict(v: &Verdict) -> String {
     }
 }
 
-fn num_after(text: &str, pat: &str) -> Vec<u32> {
-    let mut out = Vec::new();
-    let mut rest = text;
-    while let Some(i) = rest.find(pat) {
-        rest = &rest[i + pat.len()..];
-        let digits: String = rest.chars().take_while(|c| c.is_ascii_digit()).collect();
-        if let Ok(n) = digits.parse() {
-            out.push(n);
-        }
-    }
-    out
+/// what the type checker said, structurally
+enum Checked {
+    Ok(ir::Module),
+    /// `AssertTypeFailed(_, expected, received)`
+    AssertFailed(ir::Module, ir::TypeId),
+    /// `FunctionArgumentTypeMismatch(overloads, _, _, ambiguous)`
+    Mismatch(ir::Module, Vec<ir::FunctionId>, bool),
+    Other(String),
 }
 
-fn run_program(src: &str, first_id: u32) -> Verdict {
-    match guard(|| front_end_src(src)) {
-        Err(p) => Verdict::Panic(p),
-        Ok(Ok(_)) => Verdict::Sel(first_id),
-        Ok(Err(e)) => {
-            let text = e.text().to_string();
+fn type_check_src(src: &str) -> Checked {
+    use rssl::text::CompileErrorExt;
+    let mut sm = rssl::text::SourceManager::new();
+    let mut inc = MemFiles(vec![("main.rssl".to_string(), src.to_string())]);
+    let tokens = match rssl::preprocess::preprocess("main.rssl", &mut sm, &mut inc, &[]) {
+        Ok(t) => t,
+        Err(e) => return Checked::Other(format!("preprocess:{}", one_line(&format!("{}", e.display(&sm))))),
+    };
+    let tokens = rssl::preprocess::prepare_tokens(&tokens);
+    let ast = match rssl::parser::parse(&tokens) {
+        Ok(a) => a,
+        Err(e) => {
+            let t = format!("{}", e.display(&sm));
+            return Checked::Other(format!("parse:{}", t.lines().next().unwrap_or("")));
+        }
+    };
+    match rssl::typer::type_check(&ast) {
+        Ok(ir) => Checked::Ok(ir),
+        Err(e) => {
+            let text = format!("{}", e.display(&sm));
             let first = text.lines().next().unwrap_or("").to_string();
-            if e.stage() != "type" {
-                return Verdict::Other(format!("{}:{}", e.stage(), first));
-            }
-            if first.contains("error: expected type 'R") {
-                match num_after(&first, "but received type 'R").first() {
-                    Some(n) => Verdict::Sel(*n),
-                    None => Verdict::Other(first),
-                }
-            } else if first.contains("error: ambiguous call to f(") {
-                let mut ids = num_after(&text, "note: candidate function: R");
-                ids.sort();
-                Verdict::Amb(ids)
-            } else if first.contains("error: no matching function for call to f(") {
-                Verdict::Unmatched
-            } else {
-                Verdict::Other(first)
+            match e.0 {
+                rssl::typer::TyperError::AssertTypeFailed(_, _, received) => Checked::AssertFailed(e.1.module, received),
+                rssl::typer::TyperError::FunctionArgumentTypeMismatch(ids, _, _, amb) => Checked::Mismatch(e.1.module, ids, amb),
+                _ => Checked::Other(format!("type:{}", first)),
             }
         }
     }
 }
+
+/// the first call of a function named `name` in an expression
+fn call_in_expr(e: &ir::Expression, module: &ir::Module, name: &str) -> Option<ir::FunctionId> {
+    use ir::Expression as E;
+    match e {
+        E::Call(id, _, args) => {
+            if module.function_registry.get_function_name(*id) == name {
+                return Some(*id);
+            }
+            args.iter().find_map(|a| call_in_expr(a, module, name))
+        }
+        E::TernaryConditional(a, b, c) => [a, b, c].iter().find_map(|x| call_in_expr(x, module, name)),
+        E::Sequence(v) | E::IntrinsicOp(_, v) => v.iter().find_map(|x| call_in_expr(x, module, name)),
+        E::Swizzle(a, _) | E::MatrixSwizzle(a, _) | E::StructMember(a, _, _) | E::ObjectMember(a, _) | E::Cast(_, a) => {
+            call_in_expr(a, module, name)
+        }
+        E::ArraySubscript(a, b) => call_in_expr(a, module, name).or_else(|| call_in_expr(b, module, name)),
+        E::Constructor(_, slots) => slots.iter().find_map(|s| call_in_expr(&s.expr, module, name)),
+        _ => None,
+    }
+}
+
+fn call_in_block(b: &ir::ScopeBlock, module: &ir::Module, name: &str) -> Option<ir::FunctionId> {
+    for st in &b.0 {
+        let r = match &st.kind {
+            ir::StatementKind::Expression(e) => call_in_expr(e, module, name),
+            ir::StatementKind::Block(b) => call_in_block(b, module, name),
+            _ => None,
+        };
+        if r.is_some() {
+            return r;
+        }
+    }
+    None
+}
+
+/// the function the program's one call of `name` was resolved to (searched in `main` and `g`)
+fn find_call(module: &ir::Module, name: &str) -> Option<ir::FunctionId> {
+    for id in module.function_registry.iter() {
+        let n = module.function_registry.get_function_name(id);
+        if n != "main" && n != "g" {
+            continue;
+        }
+        if let Some(imp) = module.function_registry.get_function_implementation(id) {
+            if let Some(f) = call_in_block(&imp.scope_block, module, name) {
+                return Some(f);
+            }
+        }
+    }
+    None
+}
+
+/// `R<n>` -> n
+fn result_struct(module: &ir::Module, ty: ir::TypeId) -> Option<u32> {
+    let base = module.type_registry.remove_modifier(ty);
+    match module.type_registry.get_type_layer(base) {
+        ir::TypeLayer::Struct(sid) => {
+            let n = &module.struct_registry[sid.0 as usize].name.node;
+            n.strip_prefix('R')?.parse().ok()
+        }
+        _ => None,
+    }
+}
+
+/// the overloads the compiler itself contributes for the `A` / `B` paths, in the order they are handed to
+/// `find_function_type`: (function id, candidate with id 1000 + k)
+fn builtin_cands(module: &mut ir::Module, path: &Path) -> Option<Vec<(ir::FunctionId, Cand)>> {
+    let fids: Vec<ir::FunctionId> = match path {
+        Path::Intrinsic(name) => module
+            .function_registry
+            .iter()
+            .filter(|id| {
+                module.function_registry.get_function_name(*id) == name
+                    && module.function_registry.get_intrinsic_data(*id).is_some()
+                    && module.function_registry.get_template_instantiation_data(*id).is_none()
+                    && module.function_registry.get_function_name_definition(*id).namespace.is_none()
+            })
+            .collect(),
+        Path::Object(k, name) => {
+            let ot = object_type(*k, module)?;
+            let oid = module.register_object(ot);
+            module
+                .type_registry
+                .get_object_functions(oid)
+                .iter()
+                .copied()
+                .filter(|id| module.function_registry.get_function_name(*id) == name)
+                .collect()
+        }
+        _ => return Some(Vec::new()),
+    };
+    let mut out = Vec::new();
+    for (k, fid) in fids.iter().enumerate() {
+        let sig = module.function_registry.get_function_signature(*fid);
+        let tkinds: Vec<bool> = sig.template_params.iter().map(|t| matches!(t, ir::TemplateParam::Type(_))).collect();
+        let mut params = Vec::new();
+        for p in &sig.param_types {
+            let io = match p.input_modifier {
+                ir::InputModifier::In => Io::In,
+                ir::InputModifier::Out => Io::Out,
+                ir::InputModifier::InOut => Io::InOut,
+            };
+            params.push(Param { io, ty: describe_in(module, p.type_id, true)? });
+        }
+        out.push((*fid, Cand { id: 1000 + k as u32, non_default: sig.non_default_params, params, tkinds }));
+    }
+    Some(out)
+}
+
+/// candidate id of a function of a checked module: user functions by their result struct, the compiler's own
+/// overloads by their position
+fn cand_of(module: &ir::Module, fid: ir::FunctionId, builtins: &[(ir::FunctionId, Cand)]) -> Option<(u32, Option<Vec<String>>)> {
+    let (parent, targs) = match module.function_registry.get_template_instantiation_data(fid) {
+        Some(inst) => {
+            let mut v = Vec::new();
+            for a in &inst.template_args {
+                v.push(match a {
+                    ir::TypeOrConstant::Type(t) => show_ty(describe_in(module, *t, true)?),
+                    ir::TypeOrConstant::Constant(_) => "#".to_string(),
+                });
+            }
+            (inst.parent_id, Some(v))
+        }
+        None => (fid, None),
+    };
+    if let Some((_, c)) = builtins.iter().find(|(f, _)| *f == parent) {
+        return Some((c.id, targs));
+    }
+    let sig = module.function_registry.get_function_signature(parent);
+    Some((result_struct(module, sig.return_type.return_type)?, targs))
+}
+
+/// compile one declaration order and read the verdict off the type checker's result
+fn run_program(cands: &[Cand], args: &[ETy], opts: &Opts) -> Option<Verdict> {
+    let fname: String = match &opts.path {
+        Path::Intrinsic(n) | Path::Object(_, n) => n.clone(),
+        _ => "f".to_string(),
+    };
+    // the compiler's own overloads have no result struct to assert on
+    let first = match opts.path {
+        Path::Intrinsic(_) | Path::Object(..) => None,
+        _ => cands.iter().filter(|c| is_user(c)).map(|c| c.id).min(),
+    };
+    let src = program(cands, args, opts, first)?;
+    let is_template = |id: u32| cands.iter().any(|c| c.id == id && !c.tkinds.is_empty());
+    let from_ok = |m: &mut ir::Module| -> Verdict {
+        let builtins = builtin_cands(m, &opts.path).unwrap_or_default();
+        match find_call(m, &fname).and_then(|f| cand_of(m, f, &builtins)) {
+            Some((id, t)) => Verdict::Sel(id, if is_template(id) { t } else { None }),
+            None => Verdict::Other("accepted, but the call is not in the module".into()),
+        }
+    };
+    let v = match guard(|| type_check_src(&src)) {
+        Err(p) => Verdict::Panic(p),
+        Ok(Checked::Ok(mut m)) => {
+            let v = from_ok(&mut m);
+            match (&v, first) {
+                (Verdict::Sel(id, _), Some(f)) if *id != f => {
+                    Verdict::Other(format!("assert_type<R{}> accepted a call of candidate {}", f, id))
+                }
+                _ => v,
+            }
+        }
+        Ok(Checked::AssertFailed(m, received)) => match result_struct(&m, received) {
+            Some(n) if is_template(n) => {
+                // compile again with the right expectation to see the instantiation that is called
+                let src2 = program(cands, args, opts, Some(n))?;
+                match guard(|| type_check_src(&src2)) {
+                    Err(p) => Verdict::Panic(p),
+                    Ok(Checked::Ok(mut m2)) => match from_ok(&mut m2) {
+                        Verdict::Sel(id, t) if id == n => Verdict::Sel(id, t),
+                        other => Verdict::Other(format!("second run disagrees: {}", show_verdict(&other))),
+                    },
+                    Ok(_) => Verdict::Other(format!("assert_type<R{}> rejected after R{} was reported", n, n)),
+                }
+            }
+            Some(n) => Verdict::Sel(n, None),
+            None => Verdict::Other("assert_type failed with a type that is no candidate's result".into()),
+        },
+        Ok(Checked::Mismatch(mut m, ids, amb)) => {
+            let builtins = builtin_cands(&mut m, &opts.path).unwrap_or_default();
+            // only a mismatch of the call under test counts
+            let ours = ids.first().map(|f| m.function_registry.get_function_name(*f) == fname).unwrap_or(true);
+            if !ours {
+                Verdict::Other("mismatch reported for another call".into())
+            } else if amb {
+                let mut out = Vec::new();
+                for f in &ids {
+                    match cand_of(&m, *f, &builtins) {
+                        Some((id, _)) => out.push(id),
+                        None => return Some(Verdict::Other("ambiguity names an unknown function".into())),
+                    }
+                }
+                out.sort();
+                Verdict::Amb(out)
+            } else {
+                Verdict::Unmatched
+            }
+        }
+        Ok(Checked::Other(e)) => Verdict::Other(e),
+    };
+    Some(v)
+}
+
 
 // ------------------------------------------------------------------------------------------- oracle
+//
+// The oracle reads the property, not the implementation: which candidates are *viable* is not defined by the
+// property, so that one bit per (argument, parameter) is taken from the real `ImplicitConversion::find(..).is_ok()`;
+// how *good* a conversion is ("exactly equal types", "converts an argument better / worse") is computed here from
+// the declared parameter type and the argument type alone, with the priority table in the comment at the top of
+// casting.rs written out by hand - `get_rank` is not consulted.
 
-fn num_order(name: &str) -> Option<u32> {
-    // the property's reading of "better": the priority list at the top of casting.rs
-    ["Exact", "Promotion", "PromotionTwice", "IntToBool", "Conversion", "EnumToNumeric"]
-        .iter()
-        .position(|x| *x == name)
-        .map(|i| i as u32)
+/// tier of converting scalar kind `src` to `dst` for one argument (smaller = better); rows of the table at the top of
+/// casting.rs.  Only tiers of one row (one argument) are ever compared.
+fn scalar_tier(src: u8, dst: u8) -> u32 {
+    // 0 Bool, 1 IntLiteral, 2 Int32, 3 UInt32, 4 FloatLiteral, 5 Float16, 6 Float32, 7 Float64
+    if src == dst {
+        return 0;
+    }
+    match src {
+        // bool                 bool     -> uint/int/half/float/double
+        0 => 1,
+        // untyped int literal:             uint/int              -> bool -> half/float/double
+        1 => match dst {
+            2 | 3 => 0,
+            0 => 1,
+            _ => 2,
+        },
+        // int                  int      -> uint                  -> bool -> half/float/double
+        2 => match dst {
+            3 | 1 => 1,
+            0 => 2,
+            _ => 3,
+        },
+        // uint                 uint     -> int                   -> bool -> half/float/double
+        3 => match dst {
+            2 | 1 => 1,
+            0 => 2,
+            _ => 3,
+        },
+        // untyped float literal (not in the table; reads like the int literal): half/float/double -> bool/int/uint
+        4 => match dst {
+            5 | 6 | 7 => 0,
+            _ => 1,
+        },
+        // half:                half     -> float    -> double            -> bool/int/uint
+        5 => match dst {
+            6 => 1,
+            7 | 4 => 2,
+            _ => 3,
+        },
+        // float:               float    -> double                        -> bool/int/uint/half
+        6 => match dst {
+            7 | 4 => 1,
+            _ => 2,
+        },
+        // double:              double                                    -> bool/int/uint/float/half
+        _ => 1,
+    }
 }
 
-fn vec_order(name: &str) -> Option<u32> {
-    ["Exact", "Expand", "Contract"].iter().position(|x| *x == name).map(|i| i as u32)
+/// (numeric tier, dimension tier) of passing an argument of layer `a` for a parameter of layer `p`;
+/// dimension: 0 same shape (a 1-vector counts as a scalar), 1 a scalar spread over a vector / matrix, 2 elements dropped
+fn quality(a: Layer, p: Layer) -> (u32, u32) {
+    if a == p {
+        return (0, 0);
+    }
+    let num = match (a, p) {
+        (Layer::Enum(_), _) => 10,
+        _ if is_numeric(a) && is_numeric(p) => scalar_tier(scalar_of(a), scalar_of(p)),
+        _ => 20,
+    };
+    let width = |l: Layer| match l {
+        Layer::Scalar(_) | Layer::Enum(_) => 1,
+        Layer::Vector(_, n) => n,
+        Layer::Matrix(_, x, y) => 100 * x + y,
+        _ => 0,
+    };
+    let (wa, wp) = (width(a), width(p));
+    let dim = if wa == wp {
+        0
+    } else if wa == 1 {
+        1
+    } else {
+        2
+    };
+    (num, dim)
 }
 
 struct Judged {
-    /// per viable candidate: id and per-argument (numeric, vector) order
+    /// per viable candidate: id and per-argument (numeric tier, dimension tier)
     viable: Vec<(u32, Vec<(u32, u32)>)>,
     exact: Vec<u32>,
+    /// candidates whose instantiation the oracle expects to panic (a vector of a non-scalar)
     panic: Option<String>,
 }
 
-fn grid_layer(l: Layer, literal_ok: bool) -> bool {
-    match l {
-        Layer::Scalar(s) => GRID_SCALARS.contains(&s) || (literal_ok && (s == S_INTLIT || s == S_FLOATLIT)),
-        Layer::Vector(s, n) => GRID_SCALARS.contains(&s) && (2..=4).contains(&n),
-        _ => false,
-    }
+fn has_vec1(l: Layer) -> bool {
+    matches!(l, Layer::Vector(_, 1) | Layer::TVec(_, 1) | Layer::Matrix(_, 1, _) | Layer::Matrix(_, _, 1) | Layer::TMat(_, 1, _) | Layer::TMat(_, _, 1))
 }
 
 fn param_ety(p: Param) -> ETy {
     ETy { lvalue: p.io != Io::In, ty: p.ty }
 }
 
-fn judge_set(real: &mut Real, cands: &[Cand], args: &[ETy]) -> Judged {
+/// the oracle's reading of template argument deduction: explicit arguments first; `Tk` is the type of the first argument
+/// whose parameter mentions it (qualifiers dropped, an untyped literal is an int / a float); `vector<Tk, n>` only
+/// matches an unqualified n-vector.  None = the candidate cannot be called this way.
+fn bind_templates(c: &Cand, args: &[ETy], explicit: &[Option<Ty>]) -> Option<Vec<Param>> {
+    if c.tkinds.is_empty() {
+        return if explicit.is_empty() { Some(c.params.clone()) } else { None };
+    }
+    if explicit.len() > c.tkinds.len() {
+        return None;
+    }
+    let norm = |l: Layer| match l {
+        Layer::Scalar(S_INTLIT) => Layer::Scalar(2),
+        Layer::Scalar(S_FLOATLIT) => Layer::Scalar(6),
+        l => l,
+    };
+    let mut bound: Vec<Option<Layer>> = Vec::new();
+    for (k, is_type) in c.tkinds.iter().enumerate() {
+        if k < explicit.len() {
+            match (&explicit[k], is_type) {
+                (Some(t), true) => bound.push(Some(norm(t.layer))),
+                (None, false) => bound.push(None),
+                _ => return None,
+            }
+            continue;
+        }
+        if !is_type {
+            return None;
+        }
+        let mut found = None;
+        for (p, a) in c.params.iter().zip(args) {
+            let got = match (p.ty.layer, a.ty.layer) {
+                (Layer::TVar(j), l) if j as usize == k => Some(norm(l)),
+                (Layer::TVec(j, n), Layer::Vector(s, m)) if j as usize == k && n == m && a.ty.mods.0 == 0 => Some(Layer::Scalar(s)),
+                (Layer::TMat(j, x, y), Layer::Matrix(s, x2, y2)) if j as usize == k && x == x2 && y == y2 && a.ty.mods.0 == 0 => {
+                    Some(Layer::Scalar(s))
+                }
+                (Layer::TArr(j, n), Layer::Other(i)) if j as usize == k && (100..200).contains(&i) && (i - 100) % 10 == n && a.ty.mods.0 == 0 => {
+                    Some(Layer::Scalar(((i - 100) / 10) as u8))
+                }
+                _ => None,
+            };
+            if got.is_some() {
+                found = got;
+                break;
+            }
+        }
+        bound.push(Some(found?));
+    }
+    let mut out = Vec::new();
+    for p in &c.params {
+        let get = |k: u8| bound.get(k as usize).copied().flatten();
+        let layer = match p.ty.layer {
+            Layer::TVar(k) => get(k)?,
+            Layer::TVec(k, n) => match get(k)? {
+                Layer::Scalar(s) => Layer::Vector(s, n),
+                _ => return None, // "vector of a vector": judged separately (expected panic)
+            },
+            Layer::TMat(k, x, y) => match get(k)? {
+                Layer::Scalar(s) => Layer::Matrix(s, x, y),
+                _ => return None,
+            },
+            Layer::TArr(k, n) => match get(k)? {
+                Layer::Scalar(s) if (1..10).contains(&n) => Layer::Other(100 + 10 * s as u32 + n),
+                _ => return None,
+            },
+            l => l,
+        };
+        out.push(Param { io: p.io, ty: Ty { mods: Mods(0), layer } });
+    }
+    Some(out)
+}
+
+fn judge_set(real: &mut Real, cands: &[Cand], args: &[ETy], explicit: &[Option<Ty>]) -> Judged {
     let mut j = Judged { viable: Vec::new(), exact: Vec::new(), panic: None };
-    // "prefers exact matches" is judged on the property's quantifier only: parameter types on the grid
-    // {bool,int,uint,half,float,double} x {scalar,2,3,4}, arguments on the grid or untyped literals.
-    // (Outside it, e.g. with 1-vectors, `int` -> `int1` is ranked as exact as `int` -> `int`; see notes/C16.md.)
-    let on_grid = cands.iter().all(|c| c.params.iter().all(|p| grid_layer(p.ty.layer, false)))
-        && args.iter().all(|a| grid_layer(a.ty.layer, true));
+    // "a candidate whose parameter types equal the argument types exactly" is judged wherever type equality is what
+    // the words say; with 1-vectors (`int` -> `int1` is as good as `int` -> `int`, see notes/C16.md) it is not.
+    let judge_exact = !cands.iter().any(|c| c.params.iter().any(|p| has_vec1(p.ty.layer))) && !args.iter().any(|a| has_vec1(a.ty.layer));
     for c in cands {
         if !(args.len() <= c.params.len() && args.len() >= c.non_default) {
             continue;
         }
+        let Some(params) = bind_templates(c, args, explicit) else {
+            continue;
+        };
         let mut ranks = Vec::new();
         let mut ok = true;
-        for (p, a) in c.params.iter().zip(args) {
+        for (p, a) in params.iter().zip(args) {
             match real.rank(*a, param_ety(*p)) {
                 Err(pn) => {
                     j.panic = Some(pn);
@@ -577,14 +1357,7 @@ fn judge_set(real: &mut Real, cands: &[Cand], args: &[ETy]) -> Judged {
                     ok = false;
                     break;
                 }
-                Ok(Some((n, v))) => match (num_order(&n), vec_order(&v)) {
-                    (Some(n), Some(v)) => ranks.push((n, v)),
-                    _ => {
-                        j.panic = Some(format!("unknown rank {}/{}", n, v));
-                        ok = false;
-                        break;
-                    }
-                },
+                Ok(Some(_)) => ranks.push(quality(a.ty.layer, p.ty.layer)),
             }
         }
         if !ok {
@@ -593,7 +1366,7 @@ fn judge_set(real: &mut Real, cands: &[Cand], args: &[ETy]) -> Judged {
         // exact: every passed argument's type equals the type of its parameter (the value category and
         // const-ness of the argument expression are not part of its type; trailing defaulted parameters that
         // receive no argument take no part in the comparison, as in C++)
-        if on_grid && c.params.iter().zip(args).all(|(p, a)| p.ty.layer == a.ty.layer) {
+        if judge_exact && params.iter().zip(args).all(|(p, a)| p.ty.layer == a.ty.layer) {
             j.exact.push(c.id);
         }
         j.viable.push((c.id, ranks));
@@ -613,7 +1386,10 @@ fn oracle(j: &Judged, v: &Verdict) -> Result<(), String> {
         return Err(format!("unexpected diagnostic: {}", e));
     }
     match v {
-        Verdict::Sel(id) => {
+        Verdict::Sel(id, _) => {
+            if *id == 99 {
+                return Err("a candidate hidden by an inner scope was selected".to_string());
+            }
             let Some((_, mine)) = j.viable.iter().find(|(i, _)| i == id) else {
                 return Err(format!("selected candidate {} is not viable (an argument has no implicit conversion)", id));
             };
@@ -656,6 +1432,7 @@ fn oracle(j: &Judged, v: &Verdict) -> Result<(), String> {
     Ok(())
 }
 
+
 // ------------------------------------------------------------------------------------------- running
 
 fn permutations(n: usize) -> Vec<Vec<usize>> {
@@ -684,6 +1461,8 @@ struct Group {
     verdicts: Vec<(Vec<u32>, Verdict)>,
     judged: Judged,
     expressible: bool,
+    /// the compiler's own overloads of the `A` / `B` paths, as read from the function registry
+    builtins: Vec<Cand>,
 }
 
 struct Runner {
@@ -698,58 +1477,97 @@ impl Runner {
         Runner { real: Real::new(), cache: HashMap::new(), hist: Hist::default(), compiles: 0 }
     }
 
-    /// run every permutation of the candidate set (capped for sets larger than 5)
-    fn group(&mut self, sorted: &[Cand], args: &[ETy], with_defs: bool) -> &Group {
-        let key = format!("{}\t{}\t{}", show_cands(sorted), show_args(args), with_defs);
+    /// the compiler's own overloads for a path (empty for the other paths); None = not describable
+    fn builtins(path: &Path) -> Option<Vec<Cand>> {
+        match path {
+            Path::Intrinsic(_) | Path::Object(..) => {
+                let mut m = ir::Module::create();
+                Some(builtin_cands(&mut m, path)?.into_iter().map(|(_, c)| c).collect())
+            }
+            _ => Some(Vec::new()),
+        }
+    }
+
+    /// run every permutation of the user-declared candidates (capped for sets larger than 5); the compiler's own
+    /// overloads always come first, in registry order
+    fn group(&mut self, sorted_users: &[Cand], args: &[ETy], opts: &Opts) -> &Group {
+        let key = format!("{}\t{}\t{}", show_cands(sorted_users), show_args(args), show_opts(opts));
         if !self.cache.contains_key(&key) {
-            let judged = judge_set(&mut self.real, sorted, args);
+            let builtins = Self::builtins(&opts.path);
+            let mut expressible = builtins.is_some();
+            let builtins = builtins.unwrap_or_default();
+            let mut all = builtins.clone();
+            all.extend(sorted_users.iter().cloned());
+            let judged = judge_set(&mut self.real, &all, args, &opts.targs);
             let mut verdicts = Vec::new();
-            let mut expressible = true;
-            let perms = if sorted.len() <= 5 { permutations(sorted.len()) } else { vec![(0..sorted.len()).collect(), (0..sorted.len()).rev().collect()] };
-            for p in perms {
-                let order: Vec<Cand> = p.iter().map(|i| sorted[*i].clone()).collect();
-                let Some(src) = program(&order, args, with_defs) else {
-                    expressible = false;
-                    break;
-                };
-                self.compiles += 1;
-                let first = sorted.iter().map(|c| c.id).min().unwrap_or(0);
-                let v = run_program(&src, first);
-                verdicts.push((order.iter().map(|c| c.id).collect(), v));
+            let n = sorted_users.len();
+            let perms = if n <= 5 { permutations(n) } else { vec![(0..n).collect(), (0..n).rev().collect()] };
+            if expressible {
+                for p in perms {
+                    let mut order: Vec<Cand> = builtins.clone();
+                    order.extend(p.iter().map(|i| sorted_users[*i].clone()));
+                    let Some(v) = run_program(&order, args, opts) else {
+                        expressible = false;
+                        break;
+                    };
+                    self.compiles += 1;
+                    verdicts.push((order.iter().map(|c| c.id).collect(), v));
+                }
             }
             if self.cache.len() > 4096 {
                 self.cache.clear();
             }
-            self.cache.insert(key.clone(), Group { verdicts, judged, expressible });
+            self.cache.insert(key.clone(), Group { verdicts, judged, expressible, builtins });
         }
         &self.cache[&key]
     }
 
     /// one request (one declaration order); the oracle looks at the whole permutation group
-    fn resolve_case(&mut self, cands: &[Cand], args: &[ETy], with_defs: bool, out: &mut Out) {
-        let req = format!(
-            "C16.resolve\t{}\t{}{}",
-            show_cands(cands),
-            show_args(args),
-            if with_defs { "\tD" } else { "" }
-        );
-        let mut sorted = cands.to_vec();
+    fn resolve_case(&mut self, cands: &[Cand], args: &[ETy], opts: &Opts, out: &mut Out) {
+        let o = show_opts(opts);
+        let req = format!("C16.resolve\t{}\t{}{}{}", show_cands(cands), show_args(args), if o.is_empty() { "" } else { "\t" }, o);
+        let mut sorted: Vec<Cand> = cands.iter().filter(|c| is_user(c)).cloned().collect();
         sorted.sort();
+        let given_builtins: Vec<Cand> = cands.iter().filter(|c| !is_user(c)).cloned().collect();
         let ids: Vec<u32> = cands.iter().map(|c| c.id).collect();
-        let g = self.group(&sorted, args, with_defs);
+        let g = self.group(&sorted, args, opts);
         if !g.expressible || cands.is_empty() {
             out.case(&req, "-", "SKIP:not expressible as an RSSL program");
+            return;
+        }
+        if g.builtins != given_builtins {
+            out.case(&req, "-", "SKIP:the request's compiler-provided overloads are not the ones of this compiler");
             return;
         }
         let Some((_, mine)) = g.verdicts.iter().find(|(o, _)| *o == ids) else {
             out.case(&req, "-", "SKIP:declaration order not part of the permutation group");
             return;
         };
+        let mine = mine.clone();
+        let mine = &mine;
         let mut verdict = oracle(&g.judged, mine);
+        let judged_counts = (g.judged.viable.len(), g.judged.exact.len());
+        let group_verdicts: Vec<(Vec<u32>, Verdict)> = g.verdicts.clone();
+        if verdict.is_ok() && opts.form != 0 {
+            // "depends only on ... the argument types": the same types written as other expressions
+            let base = Opts { form: 0, ..opts.clone() };
+            let g0 = self.group(&sorted, args, &base);
+            if g0.expressible {
+                if let Some((_, v0)) = g0.verdicts.iter().find(|(o, _)| *o == ids) {
+                    if show_verdict(v0) != show_verdict(mine) {
+                        verdict = Err(format!(
+                            "the verdict depends on how the arguments are written, not on their types: `{}` here, `{}` with locals",
+                            show_verdict(mine),
+                            show_verdict(v0)
+                        ));
+                    }
+                }
+            }
+        }
         if verdict.is_ok() {
             // order independence: every other declaration order gives the same verdict
             // (a panic under any order is reported on every line of the group)
-            for (o, v) in &g.verdicts {
+            for (o, v) in &group_verdicts {
                 if let Verdict::Panic(p) = v {
                     verdict = Err(format!("panic {}", p));
                     break;
@@ -768,24 +1586,50 @@ impl Runner {
         }
         let obs = show_verdict(mine);
         let kind = match mine {
-            Verdict::Sel(_) => "verdict:selected",
+            Verdict::Sel(..) => "verdict:selected",
             Verdict::Amb(_) => "verdict:ambiguous",
             Verdict::Unmatched => "verdict:unmatched",
             Verdict::Panic(_) => "verdict:panic",
             Verdict::Other(_) => "verdict:other-error",
         };
-        let nviable = g.judged.viable.len();
-        let nexact = g.judged.exact.len();
+        let (nviable, nexact) = judged_counts;
+        let sel_template = matches!(mine, Verdict::Sel(_, Some(_)));
         let o = match verdict {
             Ok(()) => "ok".to_string(),
             Err(e) => format!("FAIL:{}", e),
         };
         out.case(&req, &obs, &o);
         self.hist.add(kind);
-        self.hist.add(&format!("viable:{}", nviable));
+        self.hist.add(&format!("viable:{}", nviable.min(9)));
         self.hist.add(&format!("exact:{}", nexact));
-        self.hist.add(&format!("cands:{}", cands.len()));
+        self.hist.add(&format!("cands:{}", cands.len().min(9)));
         self.hist.add(&format!("args:{}", args.len()));
+        self.hist.add(&format!(
+            "path:{}",
+            match &opts.path {
+                Path::Free => "free",
+                Path::Method => "method",
+                Path::MethodIntFirst => "method-internal-caller-first",
+                Path::MethodIntLast => "method-internal-caller-last",
+                Path::TStruct => "method-of-struct-template",
+                Path::Ns => "namespace-qualified",
+                Path::NsSplit => "namespace-reopened",
+                Path::NsInner => "namespace-inner-hides-root",
+                Path::NsNested => "namespace-nested-hides-outer",
+                Path::NsAbsolute => "absolute-name-skips-inner",
+                Path::Intrinsic(_) => "intrinsic+user",
+                Path::Object(..) => "object-method",
+            }
+        ));
+        if !opts.targs.is_empty() {
+            self.hist.add("call:explicit-template-args");
+        }
+        if opts.form != 0 {
+            self.hist.add(&format!("call:argument-form-{}", opts.form));
+        }
+        if sel_template {
+            self.hist.add("verdict:selected-template");
+        }
         for a in args {
             self.hist.add(match (a.lvalue, a.ty.mods.0, a.ty.layer) {
                 (_, _, Layer::Scalar(S_INTLIT)) => "arg:int-literal",
@@ -793,6 +1637,16 @@ impl Runner {
                 (true, 0, _) => "arg:lvalue",
                 (true, _, _) => "arg:const-lvalue",
                 (false, _, _) => "arg:rvalue",
+            });
+            self.hist.add(match a.ty.layer {
+                Layer::Scalar(_) => "argty:scalar",
+                Layer::Vector(_, 1) => "argty:vec1",
+                Layer::Vector(..) => "argty:vector",
+                Layer::Matrix(..) => "argty:matrix",
+                Layer::Enum(_) => "argty:enum",
+                Layer::Other(i) if i < 100 => "argty:struct",
+                Layer::Other(i) if i < 200 => "argty:array",
+                _ => "argty:object",
             });
         }
         for c in cands {
@@ -802,17 +1656,33 @@ impl Runner {
                     Io::Out => "param:out",
                     Io::InOut => "param:inout",
                 });
+                if is_template_layer(p.ty.layer) {
+                    self.hist.add("param:template-typed");
+                }
             }
             if c.non_default < c.params.len() {
                 self.hist.add("cand:has-default");
             }
+            if !c.tkinds.is_empty() {
+                self.hist.add("cand:template");
+                if c.tkinds.iter().any(|k| !k) {
+                    self.hist.add("cand:template-value-param");
+                }
+            }
+            if !is_user(c) {
+                self.hist.add("cand:compiler-provided");
+            }
         }
     }
 
-    fn all_orders(&mut self, sorted: &[Cand], args: &[ETy], with_defs: bool, out: &mut Out) {
-        for p in permutations(sorted.len()) {
-            let order: Vec<Cand> = p.iter().map(|i| sorted[*i].clone()).collect();
-            self.resolve_case(&order, args, with_defs, out);
+    fn all_orders(&mut self, users: &[Cand], args: &[ETy], opts: &Opts, out: &mut Out) {
+        let Some(builtins) = Self::builtins(&opts.path) else {
+            return;
+        };
+        for p in permutations(users.len()) {
+            let mut order: Vec<Cand> = builtins.clone();
+            order.extend(p.iter().map(|i| users[*i].clone()));
+            self.resolve_case(&order, args, opts, out);
         }
     }
 
@@ -840,6 +1710,7 @@ impl Runner {
         out.case(&req, &cells.join(" "), &verdict);
     }
 }
+
 
 // ------------------------------------------------------------------------------------------- generators
 
@@ -897,12 +1768,15 @@ fn random_io(rng: &mut Rng) -> Io {
 /// still judged there; "exact match" is not, see `judge_set`)
 fn off_grid_ty(rng: &mut Rng) -> Ty {
     let s = *rng.pick(GRID_SCALARS);
-    let layer = match rng.below(12) {
+    let layer = match rng.below(14) {
         0..=3 => Layer::Vector(s, 1),
         4 => Layer::Matrix(s, 2, 2),
         5 => Layer::Matrix(s, 3, 2),
         6..=8 => Layer::Other(rng.below(2) as u32),
-        _ => Layer::Enum(rng.below(2) as u32),
+        9..=11 => Layer::Enum(rng.below(2) as u32),
+        // arrays: int[2], int[3], float[2]
+        12 => Layer::Other(100 + 10 * 2 + rng.range(2, 3) as u32),
+        _ => Layer::Other(100 + 10 * 6 + 2),
     };
     Ty { mods: Mods(0), layer }
 }
@@ -944,11 +1818,115 @@ fn random_set(rng: &mut Rng, hist: &mut Hist) -> (Vec<Cand>, Vec<Ty>) {
         if cands.iter().any(|c| c.params == params) {
             continue;
         }
-        cands.push(Cand { id: cands.len() as u32, non_default, params });
+        cands.push(Cand { id: cands.len() as u32, non_default, params, tkinds: Vec::new() });
     }
     hist.add(&format!("set:k{}", cands.len()));
     hist.add(&format!("set:arity{}", arity));
     (cands, centre)
+}
+
+/// candidate sets with function templates: 2-4 overloads, 1-3 parameters, each overload a template with probability 1/2
+fn random_template_set(rng: &mut Rng, hist: &mut Hist) -> (Vec<Cand>, Vec<Ty>) {
+    let k = rng.range(2, 4) as usize;
+    let arity = rng.range(1, 3) as usize;
+    let centre: Vec<Ty> = (0..arity)
+        .map(|_| match rng.below(12) {
+            0 => off_grid_ty(rng),
+            1 => Ty { mods: Mods(0), layer: Layer::Matrix(*rng.pick(GRID_SCALARS), 2, 2) },
+            2 => Ty { mods: Mods(0), layer: Layer::Other(100 + 10 * (*rng.pick(&[2u8, 6u8])) as u32 + 2) },
+            _ => grid_ty(rng),
+        })
+        .collect();
+    let mut cands: Vec<Cand> = Vec::new();
+    let mut tries = 0;
+    while cands.len() < k && tries < 200 {
+        tries += 1;
+        let is_template = rng.chance(11, 20);
+        let mut tkinds: Vec<bool> = Vec::new();
+        if is_template {
+            for _ in 0..rng.range(1, 2) {
+                tkinds.push(!rng.chance(1, 8));
+            }
+            if !tkinds.iter().any(|t| *t) {
+                tkinds[0] = true;
+            }
+        }
+        let type_params: Vec<u8> = tkinds.iter().enumerate().filter(|(_, t)| **t).map(|(i, _)| i as u8).collect();
+        let params: Vec<Param> = centre
+            .iter()
+            .map(|c| {
+                let concrete = related_ty(rng, *c);
+                let layer = if is_template && rng.chance(13, 20) {
+                    let tk = *rng.pick(&type_params);
+                    match (rng.below(10), c.layer) {
+                        (0..=5, _) => Layer::TVar(tk),
+                        (6..=8, Layer::Vector(_, n)) => Layer::TVec(tk, if rng.chance(4, 5) { n } else { rng.range(2, 4) as u32 }),
+                        (6..=8, Layer::Matrix(_, x, y)) => Layer::TMat(tk, x, y),
+                        (6..=8, Layer::Other(i)) if (100..200).contains(&i) => Layer::TArr(tk, if rng.chance(4, 5) { (i - 100) % 10 } else { 3 }),
+                        (6, _) => Layer::TVec(tk, rng.range(2, 4) as u32),
+                        _ => Layer::TVar(tk),
+                    }
+                } else {
+                    concrete.layer
+                };
+                Param { io: random_io(rng), ty: Ty { mods: Mods(0), layer } }
+            })
+            .collect();
+        let mut non_default = arity;
+        if arity > 1 && rng.chance(1, 10) && params[arity - 1].io == Io::In && is_numeric(params[arity - 1].ty.layer) {
+            non_default = arity - 1;
+        }
+        // two ordinary functions with one parameter list are a redefinition, not an overload set
+        // (a template whose parameter types do not mention its template parameters counts as one too)
+        let concrete = !params.iter().any(|p| is_template_layer(p.ty.layer));
+        if concrete && cands.iter().any(|c| c.params == params) {
+            continue;
+        }
+        cands.push(Cand { id: cands.len() as u32, non_default, params, tkinds });
+    }
+    hist.add(&format!("tset:k{}", cands.len()));
+    hist.add(&format!("tset:templates{}", cands.iter().filter(|c| !c.tkinds.is_empty()).count()));
+    (cands, centre)
+}
+
+/// names of the intrinsic free functions whose overloads can all be described in the protocol
+fn intrinsic_names() -> Vec<String> {
+    let mut m = ir::Module::create();
+    let mut names: Vec<String> = Vec::new();
+    for id in m.function_registry.iter() {
+        if m.function_registry.get_intrinsic_data(id).is_some() {
+            let n = m.function_registry.get_function_name(id).to_string();
+            if !n.is_empty() && !names.contains(&n) {
+                names.push(n);
+            }
+        }
+    }
+    names.retain(|n| matches!(builtin_cands(&mut m, &Path::Intrinsic(n.clone())), Some(v) if !v.is_empty()));
+    names.sort();
+    names
+}
+
+/// (object number, method name) of the intrinsic methods with at least two describable overloads
+fn object_methods() -> Vec<(u32, String)> {
+    let mut out = Vec::new();
+    for k in 0..OBJECTS.len() as u32 {
+        let mut m = ir::Module::create();
+        let Some(ot) = object_type(k, &mut m) else { continue };
+        let oid = m.register_object(ot);
+        let mut names: Vec<String> = Vec::new();
+        for f in m.type_registry.get_object_functions(oid).clone() {
+            let n = m.function_registry.get_function_name(f).to_string();
+            if !n.is_empty() && !names.contains(&n) {
+                names.push(n);
+            }
+        }
+        for n in names {
+            if matches!(builtin_cands(&mut m, &Path::Object(k, n.clone())), Some(v) if v.len() >= 2) {
+                out.push((k, n));
+            }
+        }
+    }
+    out
 }
 
 fn random_arg(rng: &mut Rng, centre: Ty) -> ETy {
@@ -960,7 +1938,12 @@ fn random_arg(rng: &mut Rng, centre: Ty) -> ETy {
             // a const local needs an initialiser, which the generator only writes for numeric types
             ETy { lvalue: true, ty: Ty { mods: Mods(if is_numeric(l) { 1 } else { 0 }), layer: l } }
         }
-        n => ETy { lvalue: n % 2 == 0, ty: related_ty(rng, centre) },
+        n => {
+            let ty = related_ty(rng, centre);
+            // a function cannot return an array: array arguments are always lvalues
+            let is_array = matches!(ty.layer, Layer::Other(i) if (100..200).contains(&i));
+            ETy { lvalue: n % 2 == 0 || is_array, ty }
+        }
     }
 }
 
@@ -1025,11 +2008,11 @@ pub fn run(args: &Args, out: &mut Out) {
             let f: Vec<&str> = line.split('\t').collect();
             match f.as_slice() {
                 ["C16.resolve", cs, az] | ["C16.resolve", cs, az, _] => {
-                    let with_defs = f.len() == 4 && f[3] == "D";
+                    let opts = parse_opts(if f.len() == 4 { f[3] } else { "" });
                     let cands: Option<Vec<Cand>> = if cs.is_empty() { Some(vec![]) } else { cs.split(';').map(parse_cand).collect() };
                     let az: Option<Vec<ETy>> = if az.is_empty() { Some(vec![]) } else { az.split(',').map(parse_ety).collect() };
-                    match (cands, az) {
-                        (Some(c), Some(a)) => r.resolve_case(&c, &a, with_defs, out),
+                    match (cands, az, opts) {
+                        (Some(c), Some(a), Some(o)) => r.resolve_case(&c, &a, &o, out),
                         _ => out.case(&line, "-", "SKIP:bad request"),
                     }
                 }
@@ -1079,11 +2062,11 @@ pub fn run(args: &Args, out: &mut Out) {
             }
             pairs += 1;
             let set = vec![
-                Cand { id: 0, non_default: 1, params: vec![params[i]] },
-                Cand { id: 1, non_default: 1, params: vec![params[j]] },
+                Cand { id: 0, non_default: 1, params: vec![params[i]], tkinds: Vec::new() },
+                Cand { id: 1, non_default: 1, params: vec![params[j]], tkinds: Vec::new() },
             ];
             for a in &arg_list {
-                r.all_orders(&set, &[*a], false, out);
+                r.all_orders(&set, &[*a], &Opts::plain(), out);
             }
         }
     }
@@ -1114,7 +2097,188 @@ pub fn run(args: &Args, out: &mut Out) {
             } else {
                 a
             };
-            r.all_orders(&cands, &a, with_defs, out);
+            r.all_orders(&cands, &a, &Opts { with_defs, ..Opts::plain() }, out);
+        }
+    }
+
+    // (4) the same kind of sets behind the other call paths: methods (external / internal call, struct templates),
+    //     namespaces (qualified, reopened, inner scope hiding an exactly matching outer overload)
+    let np = if args.n.is_some() { n / 4 } else if args.thorough() { 1500 } else { 160 };
+    let paths = [
+        Path::Method,
+        Path::MethodIntFirst,
+        Path::MethodIntLast,
+        Path::TStruct,
+        Path::Ns,
+        Path::NsSplit,
+        Path::NsInner,
+        Path::NsNested,
+        Path::NsAbsolute,
+    ];
+    for i in 0..np {
+        let (cands, centre) = random_set(&mut rng, &mut hist);
+        let path = paths[(i as usize) % paths.len()].clone();
+        let with_defs = matches!(path, Path::Ns | Path::NsSplit | Path::NsInner | Path::NsAbsolute) && rng.chance(1, 4);
+        for t in 0..3 {
+            let a: Vec<ETy> = if t == 0 {
+                centre.iter().map(|c| ETy { lvalue: true, ty: *c }).collect()
+            } else {
+                centre.iter().map(|c| random_arg(&mut rng, *c)).collect()
+            };
+            r.all_orders(&cands, &a, &Opts { with_defs, path: path.clone(), targs: Vec::new(), form: 0 }, out);
+            // every size of the visible set, down to a single inner overload next to the hidden outer one
+            if matches!(path, Path::NsInner | Path::NsNested | Path::NsAbsolute | Path::MethodIntFirst) {
+                for k in 1..cands.len() {
+                    r.all_orders(&cands[..k], &a, &Opts { with_defs, path: path.clone(), targs: Vec::new(), form: 0 }, out);
+                }
+            }
+        }
+    }
+
+    // (5) function templates among the candidates: deduction from `T`, `vector<T, n>`, `matrix<T, x, y>`, value
+    //     parameters, explicit template arguments, on several call paths
+    let nt = if args.n.is_some() { n / 2 } else if args.thorough() { 2500 } else { 260 };
+    let tpaths = [
+        Path::Free,
+        Path::Free,
+        Path::Free,
+        Path::Free,
+        Path::Method,
+        Path::Ns,
+        Path::MethodIntFirst,
+        Path::TStruct,
+        Path::NsInner,
+        Path::NsSplit,
+    ];
+    for i in 0..nt {
+        let (cands, centre) = random_template_set(&mut rng, &mut hist);
+        let path = tpaths[(i as usize) % tpaths.len()].clone();
+        for t in 0..4 {
+            let a: Vec<ETy> = if t == 0 {
+                centre.iter().map(|c| ETy { lvalue: true, ty: *c }).collect()
+            } else {
+                centre.iter().map(|c| random_arg(&mut rng, *c)).collect()
+            };
+            let a = if t > 1 && rng.chance(1, 10) && a.len() > 1 { a[..a.len() - 1].to_vec() } else { a };
+            let mut targs = Vec::new();
+            if t == 3 || rng.chance(1, 8) {
+                for k in 0..rng.range(1, 3) {
+                    targs.push(if rng.chance(1, 6) {
+                        None
+                    } else if rng.chance(1, 2) && (k as usize) < centre.len() {
+                        Some(centre[k as usize])
+                    } else {
+                        Some(related_ty(&mut rng, centre[0]))
+                    });
+                }
+                if targs.len() == 3 && !rng.chance(1, 3) {
+                    targs.pop();
+                }
+            }
+            r.all_orders(&cands, &a, &Opts { with_defs: false, path: path.clone(), targs, form: 0 }, out);
+        }
+    }
+
+    // (6) intrinsic functions: the compiler's own overload list (read from the function registry) alone and joined by
+    //     user overloads of the same name; (7) intrinsic methods of objects
+    let ni = if args.n.is_some() { n / 2 } else if args.thorough() { 3000 } else { 320 };
+    let names = intrinsic_names();
+    let methods = object_methods();
+    // the overload lists that contain one of the compiler's own templates
+    let mut templated: Vec<Path> = Vec::new();
+    for (k, m) in &methods {
+        templated.push(Path::Object(*k, m.clone()));
+    }
+    for n in &names {
+        templated.push(Path::Intrinsic(n.clone()));
+    }
+    templated.retain(|p| matches!(Runner::builtins(p), Some(b) if b.iter().any(|c| !c.tkinds.is_empty())));
+    for i in 0..ni {
+        let path = if i % 8 == 7 && !templated.is_empty() {
+            rng.pick(&templated).clone()
+        } else if i % 4 == 3 && !methods.is_empty() {
+            let (k, m) = rng.pick(&methods).clone();
+            Path::Object(k, m)
+        } else {
+            Path::Intrinsic(rng.pick(&names).clone())
+        };
+        let Some(builtins) = Runner::builtins(&path) else { continue };
+        if builtins.is_empty() {
+            continue;
+        }
+        let model = rng.pick(&builtins).clone();
+        let mut users: Vec<Cand> = Vec::new();
+        if let Path::Intrinsic(_) = path {
+            let want = match rng.below(20) {
+                0..=9 => 0,
+                10..=16 => 1,
+                _ => 2,
+            };
+            let mut tries = 0;
+            while users.len() < want && tries < 50 {
+                tries += 1;
+                let params: Vec<Param> = model
+                    .params
+                    .iter()
+                    .map(|p| Param {
+                        io: p.io,
+                        ty: if is_object_layer(p.ty.layer) {
+                            p.ty
+                        } else if is_template_layer(p.ty.layer) {
+                            grid_ty(&mut rng)
+                        } else {
+                            related_ty(&mut rng, p.ty)
+                        },
+                    })
+                    .collect();
+                if builtins.iter().any(|b| b.params == params) || users.iter().any(|u| u.params == params) {
+                    continue;
+                }
+                users.push(Cand { id: users.len() as u32, non_default: params.len(), params, tkinds: Vec::new() });
+            }
+        }
+        for t in 0..3 {
+            let a: Vec<ETy> = model
+                .params
+                .iter()
+                .map(|p| {
+                    if is_object_layer(p.ty.layer) {
+                        ETy { lvalue: true, ty: p.ty }
+                    } else if is_template_layer(p.ty.layer) {
+                        let g = if rng.chance(1, 4) { off_grid_ty(&mut rng) } else { grid_ty(&mut rng) };
+                        random_arg(&mut rng, g)
+                    } else if t == 0 {
+                        ETy { lvalue: true, ty: p.ty }
+                    } else if p.io != Io::In && rng.chance(2, 3) {
+                        ETy { lvalue: true, ty: related_ty(&mut rng, p.ty) }
+                    } else {
+                        random_arg(&mut rng, p.ty)
+                    }
+                })
+                .collect();
+            // the compiler's own templates (`T Load<T>(uint)`, `Store(uint, T)`, `DispatchMesh(.., T)`): explicit type arguments
+            let mut targs = Vec::new();
+            if builtins.iter().any(|b| !b.tkinds.is_empty()) && rng.chance(1, 2) {
+                targs.push(Some(if rng.chance(1, 4) { off_grid_ty(&mut rng) } else { grid_ty(&mut rng) }));
+            }
+            r.all_orders(&users, &a, &Opts { with_defs: false, path: path.clone(), targs, form: 0 }, out);
+        }
+    }
+    // (8) the same argument *types* written as other expressions (members of a local struct, casts, globals): the
+    //     verdict may depend on the types only
+    let nf = if args.n.is_some() { n / 8 } else if args.thorough() { 600 } else { 90 };
+    for i in 0..nf {
+        let (cands, centre) = random_set(&mut rng, &mut hist);
+        let path = [Path::Free, Path::Method, Path::MethodIntLast, Path::NsInner][(i as usize) % 4].clone();
+        for t in 0..2 {
+            let a: Vec<ETy> = if t == 0 {
+                centre.iter().map(|c| ETy { lvalue: true, ty: *c }).collect()
+            } else {
+                centre.iter().map(|c| random_arg(&mut rng, *c)).collect()
+            };
+            for form in 1..=2 {
+                r.all_orders(&cands, &a, &Opts { with_defs: false, path: path.clone(), targs: Vec::new(), form }, out);
+            }
         }
     }
     for (k, v) in &hist.0 {
@@ -1123,12 +2287,15 @@ pub fn run(args: &Args, out: &mut Out) {
         }
     }
     out.stat(&format!(
-        "{{\"conv_universe\":{},\"conv_pairs\":{},\"single_param_pairs\":{},\"random_sets\":{},\"tuples_per_set\":{},\"compiles\":{},\"hist\":{}}}",
+        "{{\"conv_universe\":{},\"conv_pairs\":{},\"single_param_pairs\":{},\"random_sets\":{},\"tuples_per_set\":{},\"path_sets\":{},\"template_sets\":{},\"intrinsic_cases\":{},\"compiles\":{},\"hist\":{}}}",
         uni.len(),
         uni.len() * uni.len(),
         pairs,
         n,
         tuples,
+        np,
+        nt,
+        ni,
         r.compiles,
         r.hist.json()
     ));
